@@ -235,3 +235,145 @@ theorem unshuffle_src (g : Geo) (hg : g.Valid) (maxIl maxXl maxZ minIl minXl min
     (add_mul_mod4 _ _ _ (dvd2 hg))]
 
 end Sgz
+
+namespace Sgz
+open Geo
+
+/-- `N x N x 4` layouts: buffer of `read_and_decompress_zslice_set_adv`.  In units: cell `(ci, cx)` of the
+`(P0/4) x (P1/4)` cell grid is filled from row `ci % A`, column `cx % B` of the block `(ci / A, cx / B)` at z-block `zb`
+(`A = b0/4`, `B = b1/4`). -/
+theorem zsliceAdv_bufSrc (g : Geo) (hg : g.Valid) (hb2 : g.b2 = 4) (zb ci cx : Nat)
+    (hci : ci < g.NB0 * (g.b0 / 4)) (hcx : cx < g.NB1 * (g.b1 / 4)) :
+    bufSrc (Loader.zsliceAdvCopies g zb) ((ci * (g.P1 / 4) + cx) * g.u)
+      = some (zb * 4096 + ((ci / (g.b0 / 4)) * g.NB1 + cx / (g.b1 / 4)) * (4096 * g.NB2)
+              + (ci % (g.b0 / 4)) * ((g.b1 / 4) * g.u) + (cx % (g.b1 / 4)) * g.u) := by
+  have hu := u_pos hg
+  have hX := P1_div4 hg
+  have hA : 0 < g.b0 / 4 := by
+    obtain ⟨c, hc⟩ := dvd0 hg; have := b0_pos hg; rw [hc] at this ⊢
+    rw [Nat.mul_div_cancel_left c (by omega)]; omega
+  have hB : 0 < g.b1 / 4 := by
+    obtain ⟨c, hc⟩ := dvd1 hg; have := b1_pos hg; rw [hc] at this ⊢
+    rw [Nat.mul_div_cancel_left c (by omega)]; omega
+  have h4096 : (g.b0 / 4) * (g.b1 / 4) * g.u = 4096 := by
+    have := cpb_u hg; simp only [cpb, hb2] at this; simpa using this
+  generalize hAd : g.b0 / 4 = A at *
+  generalize hBd : g.b1 / 4 = B at *
+  generalize hXd : g.P1 / 4 = X at *
+  -- digits
+  have hbi : ci / A < g.NB0 := by
+    rw [Nat.div_lt_iff_lt_mul hA]; exact hci
+  have hbx : cx / B < g.NB1 := by
+    rw [Nat.div_lt_iff_lt_mul hB]; exact hcx
+  have hr : ci % A < A := Nat.mod_lt _ hA
+  have hj : cx % B < B := Nat.mod_lt _ hB
+  have hci' : ci / A * A + ci % A = ci := div_add_mod' ci A
+  have hcx' : cx / B * B + cx % B = cx := div_add_mod' cx B
+  have hid : ci / A * g.NB1 + cx / B < g.NB0 * g.NB1 := lt_of_mixed _ _ _ _ hbi hbx
+  have hidd : (ci / A * g.NB1 + cx / B) / g.NB1 = ci / A := div_mixed _ _ _ hbx
+  have hidm : (ci / A * g.NB1 + cx / B) % g.NB1 = cx / B := mod_mixed _ _ _ hbx
+  -- the covering copy, literally as produced by the loops
+  let id := ci / A * g.NB1 + cx / B
+  let c : Copy :=
+    ⟨(id / g.NB1) * 4096 * g.NB1 + (id % g.NB1) * (B * g.u) + (ci % A) * (X * g.u),
+     (Loader.zsliceAdvFetch g zb id).1 + (ci % A) * (B * g.u), B * g.u⟩
+  have hmem : c ∈ Loader.zsliceAdvCopies g zb := by
+    unfold Loader.zsliceAdvCopies
+    simp only [List.mem_flatMap, List.mem_range, List.mem_map, hAd, hBd, hXd]
+    exact ⟨id, hid, ci % A, hr, rfl⟩
+  -- bufStart of a copy in cell units
+  have hstart : ∀ (bi' bx' r' : Nat), bi' * 4096 * g.NB1 + bx' * (B * g.u) + r' * (X * g.u)
+      = ((bi' * A + r') * X + bx' * B) * g.u := by
+    intro bi' bx' r'; rw [← h4096, hX]; ring
+  have hbyte : (ci * X + cx) * g.u = c.bufStart + (cx % B) * g.u := by
+    show _ = (id / g.NB1) * 4096 * g.NB1 + (id % g.NB1) * (B * g.u) + (ci % A) * (X * g.u) + (cx % B) * g.u
+    rw [hidd, hidm, hstart]
+    conv_lhs => rw [← hci', ← hcx']
+    ring
+  have hcov : c.covers ((ci * X + cx) * g.u) = true := by
+    rw [hbyte, covers_iff]
+    refine ⟨Nat.le_add_right _ _, ?_⟩
+    show c.bufStart + cx % B * g.u < c.bufStart + B * g.u
+    have := Nat.mul_lt_mul_of_pos_right hj hu
+    omega
+  rw [bufSrc_of_unique _ _ c hmem hcov]
+  · rw [hbyte, Nat.add_sub_cancel_left]
+    show some ((Loader.zsliceAdvFetch g zb id).1 + (ci % A) * (B * g.u) + cx % B * g.u) = _
+    simp only [Loader.zsliceAdvFetch]
+    rw [div_add_mod' id g.NB1]
+  · intro c' hc' hcov'
+    unfold Loader.zsliceAdvCopies at hc'
+    simp only [List.mem_flatMap, List.mem_range, List.mem_map, hAd, hBd, hXd] at hc'
+    obtain ⟨id', hid', r', hr', rfl⟩ := hc'
+    rw [covers_iff] at hcov'
+    obtain ⟨hlo, hhi⟩ := hcov'
+    simp only at hlo hhi
+    have hNB1 : 0 < g.NB1 := by
+      rcases Nat.eq_zero_or_pos g.NB1 with h | h
+      · rw [h] at hid'; simp at hid'
+      · exact h
+    have hbx' : id' % g.NB1 < g.NB1 := Nat.mod_lt _ hNB1
+    rw [hstart] at hlo hhi
+    have hhi' : (ci * X + cx) * g.u < ((id' / g.NB1 * A + r') * X + id' % g.NB1 * B + B) * g.u := by
+      have : ((id' / g.NB1 * A + r') * X + id' % g.NB1 * B) * g.u + B * g.u
+          = ((id' / g.NB1 * A + r') * X + id' % g.NB1 * B + B) * g.u := by ring
+      rw [← this]; exact hhi
+    have hlo' := Nat.le_of_mul_le_mul_right hlo hu
+    have hhi'' := Nat.lt_of_mul_lt_mul_right hhi'
+    -- the row of cells
+    have hBX : id' % g.NB1 * B + B ≤ X := by
+      have : (id' % g.NB1 + 1) * B ≤ g.NB1 * B := Nat.mul_le_mul_right B hbx'
+      rw [hX]; rw [Nat.add_mul, Nat.one_mul] at this; exact this
+    have hcxX : cx < X := by rw [hX]; exact hcx
+    have e1 : ci = id' / g.NB1 * A + r' := mixed_unique X ci cx _ hcxX (by omega) (by omega)
+    rw [← e1] at hlo' hhi''
+    -- the column of cells
+    have e2 : cx / B = id' % g.NB1 := by
+      apply mixed_unique B (cx / B) (cx % B) _ hj
+      · rw [hcx']; omega
+      · rw [hcx']; omega
+    -- block row and row inside the block
+    have e3 : id' / g.NB1 = ci / A := by
+      rw [e1, div_mixed _ _ _ hr']
+    have e4 : r' = ci % A := by
+      rw [e1, mod_mixed _ _ _ hr']
+    have e5 : id' = id := by
+      show id' = ci / A * g.NB1 + cx / B
+      rw [← e3, e2]; exact (div_add_mod' id' g.NB1).symm
+    subst e5
+    subst e4
+    rfl
+
+end Sgz
+
+namespace Sgz
+open Geo
+
+/-- z-slice set for `N x N x 4` layouts: voxel (a,x,z) (z < 4) of the decoded `(P0, P1, 4)` array comes from the unit of
+file voxel `(a, x, 4·zb + z')` for any `z' < 4` -/
+theorem zsliceAdv_src (g : Geo) (hg : g.Valid) (hb2 : g.b2 = 4) (zb a x z z' : Nat)
+    (ha : a < g.P0) (hx : x < g.P1) (hz : z < 4) (hz' : z' < 4) :
+    (Loader.zsliceAdv g zb).src a x z = code 64 (some (Spec.unit g a x (4 * zb + z'))) (Spec.pos a x z) := by
+  have hu := u_pos hg
+  have hci : a / 4 < g.NB0 * (g.b0 / 4) := by
+    rw [← P0_div4 hg]; exact div_lt_of_lt_pad a g.n0 g.b0 (dvd0 hg) (b0_pos hg) ha
+  have hcx : x / 4 < g.NB1 * (g.b1 / 4) := by
+    rw [← P1_div4 hg]; exact div_lt_of_lt_pad x g.n1 g.b1 (dvd1 hg) (b1_pos hg) hx
+  have hsrc := zsliceAdv_bufSrc g hg hb2 zb (a / 4) (x / 4) hci hcx
+  have hz4 : z / 4 = 0 := by omega
+  simp only [Loader.zsliceAdv, decomp3]
+  have hbyte : ((a / 4 * (g.P1 / 4) + x / 4) * (4 / 4) + z / 4) * g.u = (a / 4 * (g.P1 / 4) + x / 4) * g.u := by
+    rw [hz4]; ring
+  rw [hbyte]
+  have h4096 : (g.b0 / 4) * (g.b1 / 4) * g.u = 4096 := by
+    have := cpb_u hg; simp only [cpb, hb2] at this; simpa using this
+  have hunit := unitAt_of_bufSrc g.u _ _ _ (Spec.unit g a x (4 * zb + z')) hsrc (by
+    rw [div4_div a g.b0 (dvd0 hg) (b0_pos hg), div4_div x g.b1 (dvd1 hg) (b1_pos hg),
+      div4_mod a g.b0 (dvd0 hg) (b0_pos hg), div4_mod x g.b1 (dvd1 hg) (b1_pos hg)]
+    have e1 : (4 * zb + z') / 4 = zb := by omega
+    have e2 : (4 * zb + z') % 4 / 4 = 0 := by omega
+    simp only [Spec.unit, cpb, hb2, e1, e2]
+    rw [← h4096]; ring) hu
+  rw [hunit]
+
+end Sgz
